@@ -130,34 +130,119 @@ pub fn c02_six() {
 }
 
 /// Native-only concretisation of an abstract counterexample.  The solver found the defect for the abstract
-/// evaluator; a VIOLATION is only reported with a hand that fails on the REAL code, so the replay also runs the
-/// real six/seven-card ranking on a targeted family: a royal flush on every choice of five slots (any row that
-/// is missing, duplicated or mis-compared shows there), in two junk-card fillings and two slot orders.
+/// evaluator; a VIOLATION is only reported with a hand that fails on the REAL code.  So the native replay, after
+/// replaying the model's own cards, also evaluates the clause on the real six/seven-card ranking over two targeted
+/// families: (1) a royal flush on every choice of five slots (any candidate row that is missing, duplicated or
+/// mis-compared shows there), two fillings, two slot orders; (2) every six/seven-card subset of two 20-card
+/// mini-decks (T..A and A,5..2, all suits: quads, full houses, flushes, straights, wheels, kickers) in three slot
+/// orders.  The first failing hand is recorded in the replay line (notes=...).
 #[cfg(not(kani))]
-pub fn concretise<const N: usize>(rank: impl Fn([u32; N]) -> (u16, Five)) {
-    let junk = [[word(0, 0), word(1, 1)], [word(5, 2), word(5, 1)]];
-    let mut m = 0usize;
-    while m < (1 << N) {
-        if m.count_ones() == 5 {
-            for j in junk {
-                let w: [u32; N] = place_royal::<N>(m, j);
+pub mod concrete {
+    use super::*;
+
+    fn describe(w: &[u32]) -> String {
+        use ckc_rs::PokerCard;
+        w.iter().map(|c| format!("{}{}", c.get_rank_char(), c.get_suit_letter())).collect::<Vec<_>>().join(" ")
+    }
+
+    /// calls `f` on every hand of the families until it returns an error text
+    pub fn families<const N: usize>(mut f: impl FnMut([u32; N]) -> Option<&'static str>) {
+        let mut report = |w: [u32; N], msg: &'static str| {
+            crate::sym::native::note(format!("{} :: {}", msg, describe(&w)));
+            crate::sym::native::fail(msg);
+        };
+        // family 1: royal flush on every slot mask
+        let junk = [[word(0, 0), word(1, 1)], [word(5, 2), word(5, 1)]];
+        let mut m = 0usize;
+        while m < (1 << N) {
+            if m.count_ones() == 5 {
+                for j in junk {
+                    let w: [u32; N] = place_royal::<N>(m, j);
+                    let mut rev = w;
+                    rev.reverse();
+                    for hand in [w, rev] {
+                        if let Some(msg) = f(hand) {
+                            report(hand, msg);
+                            return;
+                        }
+                    }
+                }
+            }
+            m += 1;
+        }
+        // family 2: all N-subsets of two mini-decks, three slot orders
+        let decks: [[u32; 5]; 2] = [[12, 11, 10, 9, 8], [12, 3, 2, 1, 0]];
+        for ranks in decks {
+            let mut deck = [0u32; 20];
+            for (i, r) in ranks.iter().enumerate() {
+                for s in 0..4u32 {
+                    deck[i * 4 + s as usize] = word(*r, s);
+                }
+            }
+            for m in 0u32..(1 << 20) {
+                if m.count_ones() as usize != N {
+                    continue;
+                }
+                let mut w = [0u32; N];
+                let mut k = 0;
+                for i in 0..20 {
+                    if (m >> i) & 1 == 1 {
+                        w[k] = deck[i];
+                        k += 1;
+                    }
+                }
                 let mut rev = w;
                 rev.reverse();
-                for hand in [w, rev] {
-                    let (v, best) = rank(hand);
-                    if v != 1 {
-                        crate::sym::native::fail("concretised on the real evaluator: a royal flush on some five slots does not rank 1");
-                        return;
-                    }
-                    if !sym::same(best.to_arr(), ROYAL) {
-                        crate::sym::native::fail("concretised on the real evaluator: reported hand is not the royal flush, sorted");
+                let mut mix = [0u32; N];
+                for i in 0..N {
+                    mix[i] = w[(i * 5 + 1) % N]; // 5 is coprime to 6 and 7: a permutation
+                }
+                for hand in [w, rev, mix] {
+                    if let Some(msg) = f(hand) {
+                        report(hand, msg);
                         return;
                     }
                 }
             }
         }
-        m += 1;
     }
+
+    pub fn five_value(a: [u32; 5]) -> u16 {
+        Five::from(a).hand_rank_value()
+    }
+
+    /// the C02 + C03 clause for one concrete hand on the real code
+    pub fn best_of<const N: usize>(w: [u32; N], got: (u16, Five)) -> Option<&'static str> {
+        let mut best = u16::MAX;
+        for m in 0usize..(1 << N) {
+            if m.count_ones() == 5 {
+                let v = five_value(subset(&w, m));
+                if v < best {
+                    best = v;
+                }
+            }
+        }
+        let (v, hand) = got;
+        if v != best {
+            return Some("concretised on the real evaluator: value is not the smallest five-card value over all subsets");
+        }
+        let b = hand.to_arr();
+        if !(b[0] > b[1] && b[1] > b[2] && b[2] > b[3] && b[3] > b[4]) {
+            return Some("concretised on the real evaluator: reported hand is not in descending card order");
+        }
+        if b.iter().any(|c| !w.contains(c)) {
+            return Some("concretised on the real evaluator: reported hand has a card that is not in the input");
+        }
+        if five_value(b) != v {
+            return Some("concretised on the real evaluator: reported hand does not rank to the reported value");
+        }
+        None
+    }
+}
+
+#[cfg(not(kani))]
+pub fn concretise<const N: usize>(rank: impl Fn([u32; N]) -> (u16, Five)) {
+    concrete::families::<N>(|w| concrete::best_of(w, rank(w)));
 }
 
 const ROYAL: [u32; 5] = [word(12, 3), word(11, 3), word(10, 3), word(9, 3), word(8, 3)];
@@ -253,6 +338,22 @@ pub fn c09_seven_vs_six() {
         j += 1;
     }
     check!(v7 == best6, "and equals the best of its seven six-card values");
+    #[cfg(not(kani))]
+    concrete::families::<7>(|w| {
+        let v7 = Seven::from(w).hand_rank_value();
+        let mut best = u16::MAX;
+        for j in 0..7 {
+            let v6 = Six::from(drop_one::<7, 6>(&w, j)).hand_rank_value();
+            if v7 > v6 {
+                return Some("concretised on the real evaluator: seven-card value weaker than one of its six-card values");
+            }
+            best = best.min(v6);
+        }
+        if v7 != best {
+            return Some("concretised on the real evaluator: seven-card value is not the best of its six-card values");
+        }
+        None
+    });
     cover!(v7 < Six::from(drop_one::<7, 6>(&w, 6)).hand_rank_value(), "the seventh card improves the hand");
 }
 
@@ -277,5 +378,21 @@ pub fn c09_six_vs_five() {
         j += 1;
     }
     check!(v6 == best5, "and equals the best of its six five-card values");
+    #[cfg(not(kani))]
+    concrete::families::<6>(|w| {
+        let v6 = Six::from(w).hand_rank_value();
+        let mut best = u16::MAX;
+        for j in 0..6 {
+            let v5 = Five::from(drop_one::<6, 5>(&w, j)).hand_rank_value();
+            if v6 > v5 {
+                return Some("concretised on the real evaluator: six-card value weaker than one of its five-card values");
+            }
+            best = best.min(v5);
+        }
+        if v6 != best {
+            return Some("concretised on the real evaluator: six-card value is not the best of its five-card values");
+        }
+        None
+    });
     cover!(v6 < Five::from(drop_one::<6, 5>(&w, 5)).hand_rank_value(), "the sixth card improves the hand");
 }
